@@ -8,7 +8,7 @@ META = {
     "level": "proof",
     "design_ref": "DESIGN.md §6 C03",
     "text": "Kernel-checked theorems: for every list of code units the escaper model emits no raw < > \" ', emits & only as the start of one of the five entities, decoding commutes, escaping is idempotent; with the flag off it is the identity. The model is tied to StringUtils::EscapeHTMLSpecialChars by exhaustive enumeration of short strings over entity-fragment alphabets in four character widths and both flag settings, and the entity tables are re-extracted from the headers and proved equal to the standard entities on every run.",
-    "note": "Trusted: Lean kernel; axioms ⊆ {propext, Quot.sound, Classical.choice}; g++ as table translator; the correspondence harness (ASan/UBSan, exact-size buffers). The template-level print paths ({var:}, loop keys, unresolved tags) are checked by the same Lean predicates evaluated on rendered output (validation, not proof).",
+    "note": "Trusted: Lean kernel; axioms ⊆ {propext, Quot.sound, Classical.choice}; g++ as table translator; the correspondence harness (ASan/UBSan, exact-size buffers). The template-level print paths are proved on the Render model (C03Tmpl: every Variable tag appends escapeCfg of the resolved string / loop key / own source slice or a numeral text that contains no special; Raw tags append verbatim) and tied to the real renderer by the template print-path stream.",
 }
 
 THEOREMS = [
@@ -19,6 +19,12 @@ THEOREMS = [
     "Qentem.Props.C03.escape_off",
     "Qentem.Props.C03.tables_are_the_five_entities",
     "Qentem.Props.C03.escape_single_special",
+    "Qentem.Props.C03Tmpl.var_emits_escaped",
+    "Qentem.Props.C03Tmpl.raw_emits_verbatim",
+    "Qentem.Props.C03Tmpl.raw_string_verbatim",
+    "Qentem.Props.C03Tmpl.svar_emits",
+    "Qentem.Props.C03Tmpl.numeral_safe",
+    "Qentem.Props.C03Tmpl.var_text_safe",
 ]
 
 ALPHA1 = [38, 59, 97, 109, 112, 108, 116, 60]          # & ; a m p l t <
@@ -78,8 +84,8 @@ def gen_inputs(ctx):
 
 
 def run(ctx):
-    ctx.gen_constants(["Escape"])
-    ctx.prove(["Qentem.Props.C03"], THEOREMS)
+    ctx.gen_constants(["Escape", "Expr", "Tmpl"])
+    ctx.prove(["Qentem.Props.C03", "Qentem.Props.C03Tmpl"], THEOREMS)
     drv = ctx.build_driver()
     h_on = ctx.build_harness("escape_harness.cpp", tag="san_on")
     h_off = ctx.build_harness("escape_harness.cpp", flags=core.SAN_FLAGS + ["-DQENTEM_AUTO_ESCAPE_HTML=0"], tag="san_off")
@@ -138,7 +144,7 @@ def run(ctx):
                         "template print paths reach the escaper only through StringUtils::EscapeHTMLSpecialChars (checked by rendering in C01/C02 harness)"]
 
 
-MODES = ["var", "ptr", "arr", "loopval", "loopkey", "echo", "raw", "rawptr", "svar"]
+MODES = ["var", "ptr", "arr", "loopval", "loopkey", "echo", "raw", "rawptr", "svar", "svarb"]
 
 
 def template_paths(ctx, drv, h_on, h_off, inputs):
@@ -159,6 +165,8 @@ def template_paths(ctx, drv, h_on, h_off, inputs):
                     continue
                 if m == "echo" and any(x in (123, 125, 91, 93, 0) for x in u):
                     continue   # the name would end the tag early / be an index expression
+                if m == "svarb" and (any(x in (123, 125) for x in u) or (len(u) == 1 and 48 <= u[0] <= 57)):
+                    continue   # "{d}" with one digit is a placeholder; braces would nest
                 lines.append("tpl %d %s %s %s" % (auto, w, m, core.show_units(u)))
                 if m == "echo":
                     src = [123, 118, 97, 114, 58] + u + [125]
@@ -167,6 +175,8 @@ def template_paths(ctx, drv, h_on, h_off, inputs):
                     exp_src.append(("id", [u]))
                 elif m == "svar":
                     exp_src.append(("esc", [u, u]))
+                elif m == "svarb":
+                    exp_src.append(("esc", [[123] + u + [125], u]))
                 else:
                     exp_src.append(("esc", [u]))
         impl, faults = core.run_lines_parallel(exe, lines, jobs=12)
